@@ -32,7 +32,7 @@ type ndOp struct {
 	Key   int    `json:"key"`
 	Rank  int    `json:"rank,omitempty"`
 	Junk  string `json:"junk,omitempty"`
-	Kind  string `json:"kind,omitempty"`  // remoteput: "" (well-formed) miskeyed wrongvalue garbage nilrec nokey
+	Kind  string `json:"kind,omitempty"`  // remoteput: "" (well-formed) miskeyed wrongvalue garbage nilrec nokey nokeyrec
 	Half  int    `json:"half,omitempty"`  // two-instance scenarios: which of the two DHT instances over the one datastore the operation goes to
 	Stamp string `json:"stamp,omitempty"` // remoteput: receive time carried by the sender's record: "" none | past | future | garbage
 }
@@ -96,7 +96,7 @@ func TestVerif_C05_Node(t *testing.T) {
 					case c < 70:
 						o.Op = "remoteput"
 						if verifsim.Chance(t, "malformed", 25) {
-							o.Kind = rapid.SampledFrom([]string{"miskeyed", "wrongvalue", "garbage", "nilrec", "nokey"}).Draw(t, "kind")
+							o.Kind = rapid.SampledFrom([]string{"miskeyed", "wrongvalue", "garbage", "nilrec", "nokey", "nokeyrec"}).Draw(t, "kind")
 						}
 						o.Stamp = rapid.SampledFrom([]string{"", "", "past", "future", "garbage"}).Draw(t, "stamp")
 					case c < 82:
@@ -225,6 +225,10 @@ func runNode(t *testing.T, s ndSc) (res verifsim.Result) {
 					case "garbage":
 						r.value = []byte("garbage")
 						msg.Record.Value = r.value
+					case "nokeyrec":
+						// valid for the message key, but the record itself names no key
+						r.value = simValue(op.Rank, tag, op.Junk+"NOKEYREC")
+						msg.Record = &recpb.Record{Value: r.value}
 					case "nilrec":
 						msg.Record = nil
 					case "nokey":
